@@ -100,6 +100,9 @@ def basis_spline(  # pylint: disable=dangerous-default-value  # always replaced 
         raise ValueError("You cannot specify both `df` and `knots`.")
 
     x = numpy.asarray(x)
+    if x.dtype.kind in "iub":
+        # (differences to the knots would wrap around in unsigned arithmetic)
+        x = x.astype(float)
 
     if "lower_bound" in _state:
         lower_bound = float(_state["lower_bound"])
